@@ -14,18 +14,6 @@
 
 //! Crate-private utilities.
 
-/// A wrapper around [`str`] references whose [`PartialEq`] and [`Eq`]
-/// implementations are ASCII-case-insensitive.
-pub struct Caseless<'a>(pub &'a str);
-
-impl PartialEq for Caseless<'_> {
-    fn eq(&self, other: &Self) -> bool {
-        self.0.eq_ignore_ascii_case(other.0)
-    }
-}
-
-impl Eq for Caseless<'_> {}
-
 /// Converts a nibble into an ASCII hex character. Lower-case hex digits
 /// are used. The passed value must be less than 16.
 pub fn nibble_to_ascii_hex_digit(nibble: u8) -> u8 {
